@@ -272,7 +272,7 @@ fn v4_next_pkid_contract() {
 // ------------------------------------------------------------------------------------------
 // PUBACK
 // ------------------------------------------------------------------------------------------
-// @steps name=v4_puback props=C02,C07,C10 fn=MqttState::handle_incoming_puback call=puback_step
+// @steps name=v4_puback props=C02,C07,C10,C18 fn=MqttState::handle_incoming_puback call=puback_step
 fn puback_step(n: usize) {
     let mut st = any_state(n, 0);
     let g = ghost(&st);
@@ -314,6 +314,7 @@ fn puback_step(n: usize) {
             assert!(h.events == g.events, "C10 puback.err_no_event");
         }
     }
+    assert!(h.await_pingresp == g.await_pingresp, "C18 puback.ping_flag_untouched");
     assert!(wf_g(&st, &h), "C02 puback.wf");
     kani::cover!(r.is_err() && k > n, "ack above table");
     core::mem::forget(r);
@@ -324,7 +325,7 @@ fn puback_step(n: usize) {
 // ------------------------------------------------------------------------------------------
 // PUBREC
 // ------------------------------------------------------------------------------------------
-// @steps name=v4_pubrec props=C02,C07,C10 fn=MqttState::handle_incoming_pubrec call=pubrec_step
+// @steps name=v4_pubrec props=C02,C07,C10,C18 fn=MqttState::handle_incoming_pubrec call=pubrec_step
 fn pubrec_step(n: usize) {
     let mut st = any_state(n, 0);
     let g = ghost(&st);
@@ -352,6 +353,7 @@ fn pubrec_step(n: usize) {
             assert!(h.events == g.events, "C10 pubrec.err_no_event");
         }
     }
+    assert!(h.await_pingresp == g.await_pingresp, "C18 pubrec.ping_flag_untouched");
     assert!(wf_g(&st, &h), "C02 pubrec.wf");
     kani::cover!(r.is_ok(), "solicited pubrec");
     kani::cover!(r.is_err() && k > n, "pubrec above table");
@@ -362,7 +364,7 @@ fn pubrec_step(n: usize) {
 // ------------------------------------------------------------------------------------------
 // PUBCOMP
 // ------------------------------------------------------------------------------------------
-// @steps name=v4_pubcomp props=C02,C07,C10 fn=MqttState::handle_incoming_pubcomp call=pubcomp_step
+// @steps name=v4_pubcomp props=C02,C07,C10,C18 fn=MqttState::handle_incoming_pubcomp call=pubcomp_step
 fn pubcomp_step(n: usize) {
     let mut st = any_state(n, 0);
     let g = ghost(&st);
@@ -405,6 +407,7 @@ fn pubcomp_step(n: usize) {
             assert!(h.events == g.events, "C10 pubcomp.err_no_event");
         }
     }
+    assert!(h.await_pingresp == g.await_pingresp, "C18 pubcomp.ping_flag_untouched");
     assert!(wf_g(&st, &h), "C02,C07 pubcomp.wf");
     kani::cover!(r.is_err() && k > n, "pubcomp above table");
     core::mem::forget(r);
@@ -414,7 +417,7 @@ fn pubcomp_step(n: usize) {
 // ------------------------------------------------------------------------------------------
 // outgoing publish
 // ------------------------------------------------------------------------------------------
-// @steps name=v4_outgoing_publish props=C02,C07,C10 fn=MqttState::outgoing_publish call=outgoing_publish_step ns=quick:1,2;thorough:1,2,3,4
+// @steps name=v4_outgoing_publish props=C02,C07,C10,C18 fn=MqttState::outgoing_publish call=outgoing_publish_step ns=quick:1,2;thorough:1,2,3,4
 fn outgoing_publish_step(n: usize) {
     let mut st = any_state(n, 0);
     let g = ghost(&st);
@@ -465,6 +468,7 @@ fn outgoing_publish_step(n: usize) {
             assert!(frame(&g, &h, NONE, NONE) && h.inflight == g.inflight && h.collision == g.collision, "C02 outgoing_publish.err_frame");
         }
     }
+    assert!(h.await_pingresp == g.await_pingresp, "C18 outgoing_publish.ping_flag_untouched");
     assert!(wf_g(&st, &h), "C02,C07 outgoing_publish.wf");
     kani::cover!(matches!(&r, Ok(Some(_))) && input.qos != 0 && input.pkid == 0 && g.last_pkid as usize + 1 == n, "id wrap-around");
     core::mem::forget(r);
